@@ -337,7 +337,13 @@ func (pc *parentController) processNextWorkItem() bool {
 func (pc *parentController) enqueueParentObject(obj interface{}) {
 	// If the parent doesn't match our selector, and it doesn't have our
 	// finalizer, we don't care about it.
-	if parent, ok := obj.(*unstructured.Unstructured); ok {
+	// A delete may be delivered as a tombstone; the filter applies to the
+	// object it carries.
+	filterObj := obj
+	if tombstone, ok := obj.(cache.DeletedFinalStateUnknown); ok {
+		filterObj = tombstone.Obj
+	}
+	if parent, ok := filterObj.(*unstructured.Unstructured); ok {
 		if !controllerutil.ContainsFinalizer(parent, pc.finalizer.Name) && pc.doNotMatchLabels(parent.GetLabels()) {
 			return
 		}
